@@ -21,6 +21,28 @@ def run(tier, rng, C):
         helpers = [(V.S('h%d' % j), V.plain_value(rng, 2)) for j in range(rng.randint(2, 4))]
         tstacks.append([('m', helpers)] + [V.M(('t', V.S('${h%d}' % j))) for j in range(len(helpers))])
     rcases += MC.build_cases(C, tstacks, prefix='t')
+    # mapping-valued keys written with their entries in different orders in different layers are one key
+    # (mappings compare without regard to entry order): the layers merge as usual
+    pstacks = []
+    for _ in range(200 if tier == 'quick' else 5000):
+        ents = [(V.S(k), V.scalar(rng)) for k in rng.sample(['a', 'b', 'c', 'd'], rng.randint(2, 4))]
+        if rng.random() < 0.3:
+            ents.append((V.S('n'), ('m', [(V.S('y'), V.I(1)), (V.S('x'), V.I(2))])))
+        nl = rng.randint(2, 4)
+        kinds = list(MC.KINDS)
+        kind = rng.choice(['list', 'map', 'num', 'mixed'])
+        nest = rng.random() < 0.5
+        layers = []
+        for j in range(nl):
+            key = ('m', rng.sample(ents, len(ents)))
+            if key[1][-1][0] == V.S('n') and rng.random() < 0.5:
+                key = ('m', key[1][:-1] + [(V.S('n'), ('m', [(V.S('x'), V.I(2)), (V.S('y'), V.I(1))]))])
+            val = MC.KINDS[rng.choice(kinds) if kind == 'mixed' else kind]()
+            es = [(key, val), (V.S('o'), V.I(j))]
+            rng.shuffle(es)
+            layers.append(('m', [(V.S('p'), ('m', es))]) if nest else ('m', es))
+        pstacks.append(layers)
+    rcases += MC.build_cases(C, pstacks, prefix='p')
     for c in rcases:
         c['clean'] = False      # the specification oracle speaks about reference-free stacks only
     cases += rcases
@@ -28,7 +50,7 @@ def run(tier, rng, C):
         c['nontrivial'] = V.has_shared_key(c['layers'])
     rule = ('exhaustive: all stacks of <= %d layers over 8 value shapes (null,bool,num,str,list,map,...) at one key, top level '
             'and nested, with every marker combination; plus %d random stacks (<= 6 layers, depth <= 4, null/override/constant '
-            'sprinkled, non-string keys); non-trivial = some key defined by >= 2 layers; plus sequences of 3-5 layers giving one nested key values of random kinds (nulls, empty containers); plus %d stacks in which layers are given by reference; oracle = extracted Spec/DeepMerge.v on '
+            'sprinkled, non-string keys); non-trivial = some key defined by >= 2 layers; plus sequences of 3-5 layers giving one nested key values of random kinds (nulls, empty containers); plus %d stacks in which layers are given by reference; plus stacks whose layers spell one mapping-valued key with its entries in different orders; oracle = extracted Spec/DeepMerge.v on '
             'clean-key stacks, model/impl comparison on all' % (2 if tier == 'quick' else 3, nrand, nref))
     return C.standard_run(cases, rule, key_fn=lambda c, m, i, r: 'model-impl-differ', extra_oracle=MC.spec_oracle(C),
                           exhaustive=True)
